@@ -4,6 +4,7 @@ every check must exit 0 (or, where a pinned skeleton is the tie, report `no-fail
 which is recorded as such).  Usage: harmless_eval.py [R01 ...]"""
 import json
 import os
+import shutil
 import subprocess
 import sys
 import time
@@ -39,6 +40,9 @@ def main():
             return
         files = [l.split("/")[-1].strip() for l in open(patch) if l.startswith("+++ ")]
         props = sorted({p for f in files for p in AFFECTED.get(f, [])})
+        keep = "/var/tmp/evidence-keep-%d" % os.getpid()     # evidence files describe runs against /repo itself
+        shutil.rmtree(keep, ignore_errors=True)
+        shutil.copytree(os.path.join(ROOT, "evidence"), keep)
         r = sh("git -C /repo apply %s" % patch)
         res = {}
         try:
@@ -54,6 +58,9 @@ def main():
         finally:
             sh("git -C /repo checkout -- .")
             sh("/venv/bin/python %s/tools/extract.py --quiet" % ROOT)
+            for f in os.listdir(keep):
+                shutil.copy(os.path.join(keep, f), os.path.join(ROOT, "evidence", f))
+            shutil.rmtree(keep, ignore_errors=True)
         meta = {"files": files, "checked": res,
                 "silent": sorted(p for p, v in res.items() if v["exit"] == 0),
                 "alarm_no_failing_input": sorted(p for p, v in res.items() if v["exit"] != 0 and "no-failing-input-found" in v["line"]),
